@@ -194,16 +194,21 @@ def execute_prod(ctx, rows_file, every, timeout):
                                             "-scratch", ctx.shm], timeout=timeout).strip().splitlines()[-1])
 
 
+def nshards(ctx):
+    # thorough: more, smaller trace files than workers (TLC holds a whole trace file in memory)
+    return es.WORKERS if ctx.quick else 4 * es.WORKERS
+
+
 def execute(ctx, rows_file, per, disp_every, timeout):
     out = os.path.join(ctx.shm, "egress-trace")
-    return json.loads(vf.tool("hkv-egress", ["run", "-rows", rows_file, "-out", out, "-shards", str(es.WORKERS), "-per", str(per),
+    return json.loads(vf.tool("hkv-egress", ["run", "-rows", rows_file, "-out", out, "-shards", str(nshards(ctx)), "-per", str(per),
                                             "-seed", str(ctx.seed), "-dispatch-every", str(disp_every)], timeout=timeout).strip().splitlines()[-1])
 
 
 def run_rest(ctx, nrows, info, timeout):
     ctx.count("abstract_rows", nrows)
     out = os.path.join(ctx.shm, "egress-trace")
-    shards = es.WORKERS
+    shards = nshards(ctx)
     if info["rows"] != nrows:
         raise vf.Infra("hkv-egress executed %d rows, TLC generated %d" % (info["rows"], nrows))
     for k, v in info["counters"].items():
@@ -212,7 +217,7 @@ def run_rest(ctx, nrows, info, timeout):
     ctx.cov["schedules_executed"] += info["events"]
     ctx.cov["traces_validated_against_impl"] += info["events"]
     files = es.shard_files(out, shards) + es.shard_files(os.path.join(ctx.shm, "egress-trace-prod"), 1)
-    res = vf.tv_run(ctx, files, module="EgressTrace", name="tv-egress", timeout=timeout)
+    res = es.tv(ctx, files, "EgressTrace", "tv-egress", timeout=timeout)
     total = sum(r["total"] for r in res)
     if total != info["events"]:
         raise vf.Infra("trace files hold %d events, harness reported %d" % (total, info["events"]))
